@@ -331,12 +331,80 @@ def run_harness(args, stdin=None, profile="debug", timeout=3000):
     return p.returncode, lines, p.stderr.decode("utf-8", "replace")
 
 
+CREF_DIR = os.path.join(ROOT, "cref")
+CREF_BIN = os.path.join(CACHE, "cref", "driver")
+
+
+def build_cref():
+    """gcc build of the unmodified libccp 1.2.0 sources with the scripted driver."""
+    with Lock("cref"):
+        srcs = glob.glob(os.path.join(CREF_DIR, "libccp", "*.[ch]")) + [os.path.join(CREF_DIR, "driver.c")]
+        if os.path.exists(CREF_BIN) and os.path.getmtime(CREF_BIN) >= newest_mtime(srcs):
+            return True, "up to date"
+        # the vendored copy must be byte-identical to what it was when vendored (and to the registry copy when present)
+        rc, out = sh("cd %s/libccp && sha256sum -c ../SHA256SUMS" % CREF_DIR)
+        if rc != 0:
+            return False, "vendored libccp sources changed:\n" + out[-800:]
+        reg = glob.glob(os.path.expanduser("~/.cargo/registry/src/*/libccp-1.2.0/libccp"))
+        if reg:
+            for f in glob.glob(os.path.join(CREF_DIR, "libccp", "*.[ch]")):
+                g = os.path.join(reg[0], os.path.basename(f))
+                if os.path.exists(g) and open(f, "rb").read() != open(g, "rb").read():
+                    return False, "vendored %s differs from the cargo registry copy" % os.path.basename(f)
+        os.makedirs(os.path.dirname(CREF_BIN), exist_ok=True)
+        cs = ["driver.c"] + ["libccp/%s.c" % x for x in ("ccp", "machine", "serialize", "ccp_priv")]
+        rc, out = sh(["gcc", "-O1", "-w", "-o", CREF_BIN + ".new"] + cs, cwd=CREF_DIR, timeout=600)
+        if rc != 0:
+            return False, out[-2000:]
+        os.replace(CREF_BIN + ".new", CREF_BIN)
+        return True, "rebuilt"
+
+
+def cref_fill(lines):
+    """For `dp` cases the implementation's part is the bytes inside the script (built by portus);
+    the observable result is what the real libccp does with them: run the C driver."""
+    idx = [i for i, l in enumerate(lines) if l.startswith("dp\t")]
+    if not idx:
+        return lines
+    ok, msg = build_cref()
+    if not ok:
+        return [l if i not in set(idx) else l.rsplit("\t", 1)[0] + "\tCREF-UNAVAILABLE " + msg[:80].replace("\n", " ") for i, l in enumerate(lines)]
+    scripts = []
+    for i in idx:
+        arg = lines[i].split("\t")[1]
+        scripts.append(arg.split("|", 1)[1] if "|" in arg else "")
+    k = min(NCPU, max(1, len(scripts) // 500))
+    chunks = [scripts[j::k] for j in range(k)]
+    procs = [subprocess.Popen([CREF_BIN], stdin=subprocess.PIPE, stdout=subprocess.PIPE, stderr=subprocess.DEVNULL) for _ in chunks]
+    import threading
+    outs = [None] * k
+
+    def feed(j):
+        o, _ = procs[j].communicate(("\n".join(chunks[j]) + "\n").encode())
+        outs[j] = o.decode("utf-8", "replace").split("\n")
+    ths = [threading.Thread(target=feed, args=(j,)) for j in range(k)]
+    for t in ths:
+        t.start()
+    for t in ths:
+        t.join()
+    res = [None] * len(scripts)
+    for j in range(k):
+        for m, o in enumerate(outs[j][:len(chunks[j])]):
+            res[j + m * k] = o
+    out = list(lines)
+    for pos, i in enumerate(idx):
+        parts = lines[i].split("\t")
+        out[i] = "%s\t%s\t%s" % (parts[0], parts[1], res[pos] if res[pos] is not None else "CREF-CRASH")
+    return out
+
+
 def eval_cases(cases, profile="debug"):
     """cases: list of (cmd, arg).  Runs implementation and model.  Returns list of dicts."""
     inp = "".join("%s\t%s\n" % c for c in cases).encode()
     rc, lines, err = run_harness(["eval"], stdin=inp, profile=profile)
     if len(lines) != len(cases):
         lines = lines + ["%s\t%s\tHARNESS-CRASH" % cases[i] for i in range(len(lines), len(cases))]
+    lines = cref_fill(lines)
     mv = run_driver(lines)
     out = []
     for l, (m, v) in zip(lines, mv):
@@ -511,6 +579,7 @@ def check(pid, tier, seed):
                 rc, lines, err = run_harness([stream, tier, str(seed)], profile=profile)
                 if rc != 0:
                     notes.append("harness stream %s exited %d: %s" % (stream, rc, err[-300:]))
+                lines = cref_fill(lines)
                 mv = run_driver(lines)
                 for l, (m, v) in zip(lines, mv):
                     cmd, arg, impl = (l.split("\t") + ["", "", ""])[:3]
@@ -569,6 +638,7 @@ def check(pid, tier, seed):
                     rc, lines, err = run_harness([stream, "thorough", str(seed)], timeout=cfg.get("search_timeout", 600))
                 except subprocess.TimeoutExpired:
                     continue
+                lines = cref_fill(lines)
                 mv = run_driver(lines)
                 for l, (m, v) in zip(lines, mv):
                     if is_fail({"verdict": v}):
@@ -718,7 +788,9 @@ def setup():
     log("coq build: %s (%.0fs)" % ("ok" if okc else "FAILED\n" + out[-3000:], time.time() - t0))
     okd, derr = build_driver()
     log("driver build: %s" % ("ok" if okd else "FAILED\n" + derr))
-    return 0 if (ok and okc and okd) else 1
+    okr, rerr = build_cref()
+    log("cref build: %s" % ("ok" if okr else "FAILED\n" + rerr))
+    return 0 if (ok and okc and okd and okr) else 1
 
 
 def main(argv):
